@@ -50,7 +50,7 @@ def replay_cases(ctx, key):
     return out
 
 
-REPLAY_KEYS = {"win": "win_cases", "read": "read_cases", "fc": "fc_cases", "hbq": "hbq_cases", "reg": "reg_cases", "mat": "mat_cases",
+REPLAY_KEYS = {"mw": "mw_cases", "mws": "mws_cases", "win": "win_cases", "read": "read_cases", "fc": "fc_cases", "hbq": "hbq_cases", "reg": "reg_cases", "mat": "mat_cases",
                "wd": "wd_cases", "lb": "lb_cases"}
 
 
@@ -374,6 +374,234 @@ def run_fc(ctx):
         i = mm[0]
         ctx.broken("correspondence", "flow-control model (fc_step) and SCTPConn.Write disagree on %d case(s)" % len(mm),
                    {"fc_cases": [cases[i]], "observed": res[i]})
+
+
+# ------------------------------------------------------------------ (vi) several goroutines writing to one connection
+MW_EV = {"S": "EStart", "aB": "EArrBA", "B": "ERelBA", "aW": "EArrW", "W": "ERelW", "R": "ERet", "D": "EDrain", "X": "EForeign",
+         "C": "EClose", "Q": "EQuiet"}
+
+
+def gen_mw_cases(ctx):
+    rng = ctx.rng
+    quick = ctx.tier == "quick"
+    cases = []
+
+    def case(k, sizes, policy, drains=(), mode="never", seed=0, foreign=0, close=False):
+        return {"k": k, "sizes": [list(x) for x in sizes], "policy": policy, "seed": seed, "drains": list(drains),
+                "drain_mode": mode, "foreign": foreign, "close": close}
+    for k in (1, 2, 4, 8):
+        # a network that never drains: every writer tests before any writes whenever the code lets it
+        cases.append(case(k, [[WTHR, WTHR]] * k, "ba-first"))
+        cases.append(case(k, [[100 * 1024]] * k, "ba-first"))
+        cases.append(case(k, [[50000] * 3] * k, "ba-first"))
+        cases.append(case(k, [[60000, 1, WTHR]] * k, "w-first"))
+        # drains in scripted steps, only when every writer is held back
+        cases.append(case(k, [[50000] * 6] * k, "ba-first", [WTHR, 1, WTHR, 300000, 70000, WTHR] * 3, "stuck"))
+        cases.append(case(k, [[WTHR] * 3] * k, "w-first", [1, WTHR - 1, WTHR, WTHR + 1, WMAX] * 4, "stuck"))
+        # the stale token: a drain crosses the threshold while nobody waits, the amount climbs to 256 KiB, the next writer
+        # is let through by the old token (256 KiB + 128 KiB, the bound exactly)
+        nmsg = max(1, 8 // k)
+        cases.append(case(k, [[WTHR] * nmsg] * k, "ba-first", [0, WTHR, 0, 0, 0, 3 * WTHR, 0, WTHR, 0, 0], "every"))
+        # the network keeps pace
+        cases.append(case(k, [[WTHR, 100000, 65536]] * k, "w-first", [WTHR, 100000, 65536] * (k + 1), "every"))
+    szs = [1, 1000, 50000, 65536, 100000, WTHR - 1, WTHR, WTHR, 90000, 0, WTHR + 1]
+    dns = [1, 1000, 65536, WTHR - 1, WTHR, WTHR + 1, WMAX, 400000, 0]
+    for _ in range(28 if quick else 600):
+        k = rng.choice([1, 2, 2, 3, 4, 4, 5, 8, 8])
+        sizes = [[rng.choice(szs) for _ in range(rng.randrange(1, 6))] for _ in range(k)]
+        mode = rng.choice(["never", "stuck", "random", "random", "every"])
+        drains = [rng.choice(dns) for _ in range(rng.randrange(0, 14))] if mode != "never" else []
+        cases.append(case(k, sizes, rng.choice(["random", "random", "ba-first", "w-first"]), drains, mode,
+                          seed=rng.randrange(1 << 30), foreign=rng.choice([0, 0, 2, 5]), close=rng.random() < 0.3))
+    rp = replay_cases(ctx, "mw_cases")
+    for c in rp:
+        cases.insert(0, c)
+    if ctx.replay:
+        cases = cases[:len(rp)]
+    return cases
+
+
+def mw_term(events):
+    out = []
+    for e in events:
+        k = e["e"]
+        if k == "S":
+            out.append("EStart %d%%nat %s" % (e["t"], gN(e["n"])))
+        elif k == "aB":
+            out.append("EArrBA %d%%nat" % e["t"])
+        elif k == "B":
+            out.append("ERelBA %d%%nat %s" % (e["t"], gN(e["n"])))
+        elif k == "aW":
+            out.append("EArrW %d%%nat %s" % (e["t"], gN(e["n"])))
+        elif k == "W":
+            out.append("ERelW %d%%nat" % e["t"])
+        elif k == "R":
+            out.append("ERet %d%%nat %s %s" % (e["t"], gN(max(0, e["k"])), gopt(None if e["err"] < 0 else e["err"], gN)))
+        elif k == "D":
+            out.append("EDrain %s" % gN(e["n"]))
+        elif k == "X":
+            out.append("EForeign %s" % gN(e["n"]))
+        elif k == "C":
+            out.append("EClose")
+        elif k == "Q":
+            out.append("EQuiet %s %s %s" % (glist(e.get("parked") or [], gbool), gN(e["buf"]), gbool(e["token"])))
+    return "CMw [%s]" % "; ".join(out)
+
+
+def mw_oracle(c, r):
+    """the property's words on the observables: the buffered amount never exceeds the fixed bound (the same for every
+    number of writers), a writer that is held back proceeds once the network has drained, Write returns what it was given"""
+    evs = r.get("events") or []
+    foreign, fired, closed = 0, False, False
+    pend = {}
+    kinds = set()
+    bad = None
+    many = c["k"] > 1
+    for e in evs:
+        k = e["e"]
+        if k == "X":
+            foreign += e["n"]
+        elif k == "D" and e.get("fired"):
+            fired = True
+        elif k == "C":
+            closed = True
+        elif k in ("aB", "aW"):
+            pend[e["t"]] = k
+        elif k in ("B", "W"):
+            pend.pop(e["t"], None)
+        elif k == "R":
+            if e["err"] in (E_HANG, E_PANIC):
+                bad = bad or ("panic", "Write panicked (writer %d)" % e["t"])
+            elif e["err"] == 5:
+                kinds.add("closed-while-blocked")
+                if not closed:
+                    bad = bad or ("closed-without-close", "writer %d was refused with 'closed' although the connection was never closed" % e["t"])
+            elif e["err"] == 4:
+                kinds.add("limit")
+            elif e["err"] >= 0:
+                bad = bad or ("unexpected-error", "writer %d: Write returned an unexpected error" % e["t"])
+        elif k == "Q":
+            bound = WMAX + foreign + (WTHR if fired else 0)
+            parked = e.get("parked") or []
+            if e["buf"] > bound:
+                if fired:
+                    what = ("buffered amount %d exceeds 256 KiB + 128 KiB (+%d bytes written past flow control) with %d writer(s)"
+                            % (e["buf"], foreign, c["k"]))
+                else:
+                    what = ("buffered amount %d exceeds writeMaxBufferedAmount = 262144 (+%d bytes written past flow control) with %d "
+                            "writer(s) although the network never released a token" % (e["buf"], foreign, c["k"]))
+                bad = bad or (("concurrent-writers-over-bound" if many else "over-bound"), what)
+            if e["buf"] > WMAX + foreign:
+                kinds.add("stale-token")
+            if any(parked) and pend:
+                kinds.add("contention")
+            if any(parked) and not pend:
+                kinds.add("held-back")
+                if e["buf"] <= WTHR and not closed:
+                    bad = bad or ("held-back-on-drained-buffer", "writer(s) %s still held back although the buffered amount is down "
+                                  "to %d (<= the low threshold) and nothing else can move" % ([i for i, p in enumerate(parked) if p], e["buf"]))
+    if r.get("maxseen", 0) > WMAX + WTHR + foreign:
+        bad = bad or (("concurrent-writers-over-bound" if many else "over-bound"),
+                      "buffered amount reached %d with %d writer(s)" % (r["maxseen"], c["k"]))
+    note = (r.get("note") or "").strip()
+    if note:
+        bad = bad or ("hang", "driver: " + note)
+    return bad, kinds
+
+
+def run_mw(ctx):
+    cases = gen_mw_cases(ctx)
+    res, out = yield ("go", "mw", cases)
+    if res is None or len(res) != len(cases):
+        driver_failed(ctx, "Go concurrent-writers driver", out)
+        return
+    terms = []
+    for c, r in zip(cases, res):
+        bad, kinds = mw_oracle(c, r)
+        ctx.count((c["k"], str(c["sizes"]), c["policy"], c["seed"], tuple(c["drains"]), c["drain_mode"]),
+                  kind="mw/k=%d/%s/%s" % (c["k"], c["policy"], c["drain_mode"]))
+        ctx.count(("mwk", c["k"], len(terms)), nontrivial=False, kind="mw/k=%d" % c["k"])
+        for k in kinds:
+            ctx.count(("mwkind", k, len(terms)), nontrivial=False, kind="mw/has-" + k)
+        if bad:
+            ctx.fail("fc/" + bad[0], "SCTPConn.Write from %d goroutine(s) on one connection (policy %s, network %s): %s"
+                     % (c["k"], c["policy"], c["drain_mode"], bad[1]), {"mw_cases": [c], "observed": (r.get("events") or [])[:120]})
+        terms.append(mw_term(r.get("events") or []))
+    try:
+        ctx.sample({"sub": "mw", "case": cases[1], "observed": {"maxseen": res[1]["maxseen"], "events": res[1]["events"][:40]}})
+    except (IndexError, KeyError):
+        pass
+    mm = yield ("coq", terms)
+    if mm:
+        ctx.cov["mismatches"] += len(mm)
+        i = mm[0]
+        ctx.broken("correspondence", "the order of (start, BufferedAmount, stream.Write, return) events observed on the real "
+                   "SCTPConn.Write with %d writer(s) is not one the multi-writer LTS (mw_step, check and write inside the mutex) "
+                   "allows; %d case(s)" % (cases[i]["k"], len(mm)), {"mw_cases": [cases[i]], "observed": (res[i].get("events") or [])[:120]})
+
+
+def gen_mws_cases(ctx):
+    rng = ctx.rng
+    if ctx.replay:
+        return replay_cases(ctx, "mws_cases")
+    quick = ctx.tier == "quick"
+    cases = []
+    for k, drain, msgs, mx in [(8, "never", 4, 100 * 1024), (2, "never", 6, 50000), (4, "slow", 20, WTHR), (8, "fast", 40, WTHR),
+                               (1, "fast", 40, WTHR)]:
+        cases.append({"k": k, "msgs": msgs if quick else msgs * 10, "seed": rng.randrange(1 << 30), "drain": drain, "max_size": mx,
+                      "budget_ms": 400 if drain == "slow" else 8000})
+    if not quick:
+        for k in (2, 3, 16, 32):
+            for drain in ("never", "slow", "fast"):
+                cases.append({"k": k, "msgs": 200, "seed": rng.randrange(1 << 30), "drain": drain,
+                              "max_size": rng.choice([WTHR, 100 * 1024, 70000]), "budget_ms": 1500 if drain == "slow" else 20000})
+    return cases
+
+
+def mws_eval(ctx, cases, res, raced):
+    for c, r in zip(cases, res):
+        bound = WMAX + (WTHR if r["fired"] else 0)
+        ctx.count(("mws", c["k"], c["drain"], c["seed"]), nontrivial=r["written"] > 0,
+                  kind="mw/stress/%s%s" % (c["drain"], "+race" if raced else ""))
+        many = c["k"] > 1
+        if r["maxseen"] > bound:
+            ctx.fail("fc/" + ("concurrent-writers-over-bound" if many else "over-bound"),
+                     "free-running stress, %d goroutine(s) writing to one SCTPConn, network %s: buffered amount reached %d, bound %d%s"
+                     % (c["k"], c["drain"], r["maxseen"], bound, "" if r["fired"] else " (no token was ever released)"),
+                     {"mws_cases": [c], "observed": r})
+        if r["hung"]:
+            ctx.fail("fc/hang", "free-running stress: writers did not return within 5 s after Close", {"mws_cases": [c], "observed": r})
+        if r["short"]:
+            ctx.fail("fc/short-write", "Write returned a length different from the buffer's", {"mws_cases": [c], "observed": r})
+        if c["drain"] == "fast" and r["returned"] != c["k"] * c["msgs"]:
+            ctx.fail("fc/held-back-on-drained-buffer", "free-running stress with a fast network: only %d of %d Writes returned within "
+                     "%d ms" % (r["returned"], c["k"] * c["msgs"], c["budget_ms"]), {"mws_cases": [c], "observed": r})
+
+
+def run_mws(ctx):
+    cases = gen_mws_cases(ctx)
+    res, out = yield ("go", "mws", cases)
+    if res is None or len(res) != len(cases):
+        driver_failed(ctx, "Go concurrent-writers stress driver", out)
+        return
+    mws_eval(ctx, cases, res, False)
+    ctx.cov["mw_stress"] = [dict(c, **r) for c, r in zip(cases, res)][:6]
+    yield ("coq", [])
+
+
+def run_mws_race(ctx):
+    """thorough tier: the same free-running writers under the race detector"""
+    cases = gen_mws_cases(ctx)
+    files = dict(DRV)
+    files["zz_verif_mw_test.go"] = "c16/mw_driver_test.go"
+    rc, out, res = ctx.go_inpkg(".", "pkg/dtls", files, "^TestVerifC16MwStress$", cases, timeout=900, race=True)
+    if "WARNING: DATA RACE" in out:
+        ctx.fail("fc/data-race", "go test -race reports a data race with several goroutines writing to one SCTPConn",
+                 {"race_report": out[out.index("WARNING: DATA RACE"):][:1500]})
+    if res is None or len(res) != len(cases):
+        driver_failed(ctx, "Go concurrent-writers stress driver (-race)", out)
+        return
+    mws_eval(ctx, cases, res, True)
 
 
 # ------------------------------------------------------------------ (ii) queue under a schedule
@@ -990,6 +1218,8 @@ def run(ctx):
         "HKDF-SHA256 is a section variable; 'its 28-byte hello-random output separates secrets' is a named hypothesis (hkdf_hello_injective)",
         "pion completes a DTLS handshake iff both sides hold certificates of the same derived key (assumption of the registry model, step C1)",
         "the code between Lock/Unlock and single channel operations are atomic steps (Go memory model; -race in the thorough tier)",
+        "sync.Mutex gives mutual exclusion (assumed by mw_step's MLockOp); its fairness is not modelled: starvation freedom is "
+        "stated as 'every pending Write CAN complete' (C16_mw_every_write_can_complete), not 'will under every scheduler'",
         "the watchdog automaton is tied to hbLoop by measured close times only (real timers)",
     ]
     # coq/C14 provides the concrete SHA-256 / HMAC / HKDF that Concrete.v instantiates (v) on; its files are built
@@ -1003,7 +1233,7 @@ def run(ctx):
     only = (ctx.replay or {}).get("only")
     if ctx.replay and not only:
         only = [k for k, v in REPLAY_KEYS.items() if replay_cases(ctx, v)] or ["none"]
-    subs = [("read", run_reads), ("fc", run_fc), ("hbq", run_hbq), ("win", run_win), ("hbb", run_hbb), ("reg", run_reg), ("mat", run_mat), ("wd", run_wd), ("lb", run_lb)]
+    subs = [("read", run_reads), ("fc", run_fc), ("mw", run_mw), ("mws", run_mws), ("hbq", run_hbq), ("win", run_win), ("hbb", run_hbb), ("reg", run_reg), ("mat", run_mat), ("wd", run_wd), ("lb", run_lb)]
     import time
     ctx.cov["timing_s"] = {}
     t0 = time.time()
@@ -1031,7 +1261,7 @@ def run(ctx):
     t0 = time.time()
     if want_go:
         files = dict(DRV)
-        for fn in ("read", "stream", "listener", "all"):
+        for fn in ("read", "stream", "listener", "mw", "all"):
             files["zz_verif_%s_test.go" % fn] = "c16/%s_driver_test.go" % fn
         batch = {req[1]: req[2] for req in want_go.values()}
         rc, out, res = ctx.go_inpkg(".", "pkg/dtls", files, "^TestVerifC16All$", batch, timeout=1500)
@@ -1044,6 +1274,8 @@ def run(ctx):
     t0 = time.time()
     if (not only or "lb" in only):
         run_lb(ctx)
+    if ctx.tier == "thorough" and (not only or "mws" in only):
+        run_mws_race(ctx)
     ctx.cov["timing_s"]["loopback"] = round(time.time() - t0, 1)
     t0 = time.time()
     if want_coq:
@@ -1064,4 +1296,6 @@ def run(ctx):
         ctx.require_kinds(["read/data-equals-heartbeat", "fc/has-stale-token", "fc/has-blocked", "fc/has-limit",
                            "fc/has-closed-while-blocked", "reg/has-delivered", "reg/has-dup", "reg/has-cancelled",
                            "lb/has-dup-refused", "wd/closed", "wd/open", "mat/from-secret-concrete-hkdf",
-                           "hbq/closed+queue-timeout"])
+                           "hbq/closed+queue-timeout", "mw/k=1", "mw/k=2", "mw/k=4", "mw/k=8", "mw/has-contention",
+                           "mw/has-held-back", "mw/has-stale-token", "mw/has-closed-while-blocked", "mw/has-limit",
+                           "mw/stress/never", "mw/stress/fast"])
